@@ -133,7 +133,8 @@ def run(repo: Repo, rep: Report, tier: str) -> None:
     alts = cparse.alts(pcs[0].args[1]) if pcs and len(pcs[0].args) >= 2 else []
     file_alts = [a for a in alts if "filename" in a]
     ok_bp = bool(file_alts) and all(a in ("Path(filename).parent", "(Path.cwd() / Path(filename)).resolve().parent", "ANY((Path.cwd() / Path(filename)).resolve(), Path(filename)).parent",
-                                         "((Path.cwd() / Path(filename)).resolve() if not Path(filename).is_absolute() else Path(filename)).parent") for a in file_alts)
+                                         "((Path.cwd() / Path(filename)).resolve() if not Path(filename).is_absolute() else Path(filename)).parent",
+                                         "(Path(filename) if Path(filename).is_absolute() else (Path.cwd() / Path(filename)).resolve()).parent") for a in file_alts)
     rep.check(ok_bp, "C17-R2", "base path of a file input is the directory of that file", "; ".join(file_alts) if alts else "missing", parse.loc(pcs[0]) if pcs else parse.loc())
     libdir = repo.root / "lib"
     libs = sorted(p.name for p in libdir.glob("*.facto")) if libdir.is_dir() else []
